@@ -126,6 +126,12 @@ func (g *protoGen) sym() (*model.Sym, string) {
 		s := model.T(fmt.Sprintf("w%d", r.Intn(220)))
 		return &s, ""
 	}
+	if r.Chance(1, 8) {
+		// a token as a caller gets it back from a Reader over this Writer's earlier output: text and local ID together
+		// (the ID is learned at run time from what the Writer has emitted so far; without earlier output it is text only)
+		s := model.T([]string{"a", "b", "name", "foo", "it's", "é"}[r.Intn(6)])
+		return &s, "learned"
+	}
 	s := model.T(protoSymPool[r.Intn(len(protoSymPool))])
 	return &s, ""
 }
@@ -490,7 +496,7 @@ func tokenSym(s *model.Sym, tok string) (model.Sym, bool) {
 		return model.Sym{}, false
 	case "sid":
 		return sysSym(s.SID), true
-	case "both":
+	case "both", "learned":
 		return model.T(s.Text), true
 	}
 	if s == nil {
